@@ -99,7 +99,7 @@ def _run_job(job):
         r = d.discharge(obl)
         rec = None
         if r.verdict in ('sat', 'sat-abstract'):
-            rec = model_record(ex, r.model, job['harness'], job['params'])
+            rec = stubs.fix_record(ex, r.model, model_record(ex, r.model, job['harness'], job['params']))
         results.append({'kind': obl.kind, 'label': obl.label, 'pos': obl.pos, 'verdict': r.verdict, 'detail': r.detail,
                         't': round(r.t, 4), 'queries': r.queries, 'record': rec})
     if any(x['verdict'] not in ('unsat', 'reach-ok') for x in results):
